@@ -1,7 +1,8 @@
 /* C17(c): the deflate-side dictionary calls of igzip.c.
  *   H_SET     isal_deflate_set_dict
  *   H_RESET   isal_deflate_reset_dict        (LEVEL concrete 0..3, or BAD_LEVEL: symbolic level > 3)
- *   H_PROCESS isal_deflate_process_dict      (the four hash callees replaced by a recording stub)
+ *   H_PROCESS isal_deflate_process_dict      (the four hash callees replaced by a recording stub; the
+ *             output structure's previous contents are arbitrary, as with an uninitialised struct)
  * Two flavours of the payload copy:
  *   DC_STUB_MEMCPY : dict_len SYMBOLIC 0..DICT_MAX (70000), copies recorded not performed (CBMC);
  *   default        : DICT_LEN concrete and small, real memcpy, bytes compared.
@@ -168,24 +169,26 @@ harness(void)
         /* ------------------------------------------------------------ isal_deflate_process_dict */
         dc_fill(&s, &I.z, I.bi, I.hi);
         dstr.params = I.d_params, dstr.level = I.d_level, dstr.hist_size = I.d_hist_size, dstr.hash_size = I.d_hash_size;
-#ifndef PROCESS_UNINIT
-        /* ASSUMPTION (see plan): the output structure's `level` field already holds a valid level; the
-         * function reads it before writing it. */
-        VASSUME(I.d_level <= ISAL_DEF_MAX_LEVEL);
-#endif
+        /* the output structure is NOT assumed initialised: all four header fields (incl. level > 3) are
+         * arbitrary on entry, one arbitrary history byte / hash slot holds an arbitrary value */
+        dstr.history[I.j % sizeof(dstr.history)] = (uint8_t) I.d_params;
         dc_snapshot(&before, &s, I.bi, I.hi);
 
         int r = isal_deflate_process_dict(&s, &dstr, DICT, dict_len);
 
         dc_snapshot(&after, &s, I.bi, I.hi);
         VASSERT(dc_small_eq(&after, &before), "processing a dictionary never modifies the stream");
-        if (dict_len == 0) {
-                VASSERT(r == ISAL_INVALID_STATE, "empty dictionary is refused");
+        if (dict_len == 0 || I.z.level > ISAL_DEF_MAX_LEVEL) {
+                VASSERT(r == ISAL_INVALID_STATE, "empty dictionary or stream->level > 3 is refused with ISAL_INVALID_STATE");
                 VASSERT(dstr.params == I.d_params && dstr.level == I.d_level && dstr.hist_size == I.d_hist_size &&
-                                dstr.hash_size == I.d_hash_size && dc_hash_ncalls == 0,
+                                dstr.hash_size == I.d_hash_size && dc_hash_ncalls == 0 &&
+                                dstr.history[I.j % sizeof(dstr.history)] == (uint8_t) I.d_params,
                         "refused call leaves the dictionary structure untouched");
+#if DC_MEMCPY_STUBBED
+                VASSERT(dc_ncpy == 0, "no copy when refused");
+#endif
         } else {
-                VASSERT(r == COMP_OK, "documented preconditions hold => COMP_OK");
+                VASSERT(r == COMP_OK, "documented preconditions hold (non-empty dictionary, level 0..3) => COMP_OK, whatever *dict held before");
                 uint32_t lv = I.z.level;
                 uint32_t hsz = lv == 3 ? IGZIP_LVL3_HASH_SIZE : lv == 2 ? IGZIP_LVL2_HASH_SIZE : lv == 1 ? IGZIP_LVL1_HASH_SIZE : IGZIP_LVL0_HASH_SIZE;
                 VASSERT(dstr.level == lv && dstr.hist_size == n && dstr.hash_size == hsz, "level / hist_size / hash_size recorded");
